@@ -66,6 +66,22 @@ def build_cases(rng, tier):
             inputs.append(('U', ws[0], []))
         cases.append({'id': "q%d" % i, 'prog': prog, 'backend': be, 'flex_opts': opts + ["-8"], 'bufsize': bufsize,
                       'inputs': inputs, 'seed': r.s, 'text': ''})
+    # scanners that keep flex's OWN input routine (the getc loop of interactive buffers, fread, read() under %option read, the C++
+    # LexerInput), fed through a pipe in pieces and from a FILE
+    for i in range(n // 4):
+        r = rng.fork("plain%d" % i)
+        be = r.weighted([('nr', 4), ('r', 2), ('c99', 3), ('cxx', 2)])
+        opts = list(r.pick([[], ["-I"], ["-B"], ["-Cf"], ["-Ce"], ["-I", "-Cf"], ["-Cm"]]))
+        prog = rulesets.gen_program(r, trailing=(i % 5 == 0), max_scs=0, csize=256)
+        if r.chance(60):
+            prog['rules'].append({'head': ('plus', ('cls', ('set', False, [('ch', 97), ('ch', 98), ('ch', 48)]))), 'bol': False, 'scs': None, 'trail': None})
+        bufsize = r.pick([2, 3, 5, 8, 16, 17, 64, None])
+        ws = long_inputs(prog, r.fork("in"), bufsize, 3)
+        scheds = schedules(r.fork("sch"), bufsize, 3)
+        inputs = [('p', w, s[:200]) for w, s in zip(ws, scheds)] + [('f', ws[0], [])]
+        extra = ["read"] if (be != 'cxx' and i % 2 == 0) else []
+        cases.append({'id': "pl%d" % i, 'prog': prog, 'backend': be, 'flex_opts': opts + ["-8"], 'bufsize': bufsize, 'plain': True,
+                      'extra_options': extra, 'inputs': inputs, 'seed': r.s, 'text': ''})
     return cases
 
 
